@@ -31,6 +31,46 @@ CLAIMED = {
         text="Lean theorems: encoder line table aligned with code bytes for every instruction list (generated per-helper emit tables), saved ip-1 lies inside the suspended instruction incl. its cache slot, the optimiser keeps slots behind their owners, the backtrace captured by an unwind lists exactly the frames between raise and catching frame innermost first, the outcome->status table is total; witnesses for the traceback-line defect; line tables of every dumped function recomputed by the model; generated call-chain programs with randomised line layout judged by an executable Lean Spec and the exact Lines model",
         note="Trusted: Lean kernel + standard axioms, translator rows (encoder helpers, run status), hand-written unwinding model (tied by the call-chain stream), release harness build; which token's line the compiler attaches is sampled, not proved",
         technique="Lean 4 proofs about the line-table encoder and the unwinding machine + generated tables + Spec/model/implementation stream"),
+    "C01": dict(
+        text="Lean theorems: Pratt rule tables regenerated from parser.rs are sane (precedence order, rows, recursion levels; by decide), every operator agrees between a model written in ops.rs branch order and the language-rule reference for all operand values, expression lowering to the generated instruction type is correct for every expression in arbitrary surrounding code (errors and short-circuit included), Pratt parser round-trip for every expression with at least the required parentheses, call protocol (arity error, frame push/return, frame limit); reference interpreter LayRef (Lean) is the oracle for generated programs in four positions and several layouts with an exhaustive operand-kind matrix; parser and lowering models compared with the real front end on operator fragments",
+        note="Trusted: Lean kernel + standard axioms, gen_pratt translator, hand-written LayRef/Machine/Lower models (tied by the streams), Float arithmetic opaque; whole-pipeline statement C01_full and statement lowering not proved",
+        technique="Lean 4 structural-induction proofs (lowering, parser round-trip, operator agreement) + generated Pratt tables + reference-interpreter differential stream"),
+    "C02": dict(
+        text="Lean theorems: capture chain soundness for any nesting depth, resolution is lexical for every program of the scoping fragment (simulation between the compiler's flat locals/capture chain and nested Spec environments), by-value access only if uncaptured, fresh box per execution, for-item declared once; generated symbol-state and capture tables; compiler access paths compared with the real PRE stream on every generated program, programs judged by a Lean cell-environment interpreter and the slot/box/capture machine",
+        note="Trusted: Lean kernel + standard axioms, gen_scope translator, hand-written resolver/compiler/machine models (tied by the two streams); environment/machine simulation (C02_env_simulation) is checked per program, not proved",
+        technique="Lean 4 simulation proofs over scoping programs + generated tables + compile-log and program streams"),
+    "C03": dict(
+        text="Lean theorems for class chains of any depth: field-index bijection, instance slot count, field set = names assigned on self in the chain's initialisers, fixed compile-time index valid in every descendant, flattened lookup = most-derived-first walk (methods and init), lexical super lookup, fused invoke = get-then-call, field shadows method, bound-method receiver, and that the emitted Class/Inherit/Field/Method sequence builds exactly that class; API-level stream against laythe_core Class/Instance, generated class programs judged by an executable Lean class semantics, compile-log tie for the field numbering",
+        note="Trusted: Lean kernel + standard axioms, hand-written class/VM-call model (tied by the three streams), harness; whole-program equivalence (C03_full) is sampled, not proved",
+        technique="Lean 4 structural-induction proofs over class chains + API/program/compile-log correspondence streams"),
+    "C05": dict(
+        text="Lean theorems on the allocator model for every heap, mutator history and collection schedule: marking = reachability (with the model's own fuel), a collection (nursery or full) keeps every reachable object owned with its payload untouched, and along every valid history under any schedule everything the mutator can reach is still owned (C05_no_live_object_freed); random mutator/collector histories against the real Allocator judged by a reachability monitor and replayed through the model; programs and fixtures under many collection schedules must behave identically",
+        note="Trusted: Lean kernel + standard axioms, hand-written allocator model (alloc stream), allocator hooks; the VM root set and the natives' push_root discipline are outside the model and covered only by the schedule stream; observational equivalence of two schedules is not proved (only its safety core)",
+        technique="Lean 4 invariant proof over mutator/collector histories + allocator correspondence stream + schedule differential"),
+    "C08": dict(
+        text="Lean theorems on an exact executable scheduler model: state-machine invariants for every network and reachable state, deadlock only with an empty run queue, exit iff main returned, launch passes arguments, only activate/unblock can assert, producer/consumer family by induction with the D4 exclusion stated exactly; kernel-evaluated witnesses for D4/D5/D17/D18 and C08_full_false; generated FiberState assertion table; random networks as model input and Laythe programs, judged by the exact model and by a Lean search over the abstract process network",
+        note="Trusted: Lean kernel + standard axioms, hand-written scheduler model (exact agreement on the stream), harness; C08_full is false on the pinned code (known findings D4, D5, D6, D17, D18, D25-callback, D26)",
+        technique="Lean 4 invariant proofs over an exact scheduler model + witnesses + model/Spec/implementation network stream"),
+    "C09": dict(
+        text="Lean theorems (same allocator model as C05): along every history and schedule two reachable strings are the same object iff their contents are equal, no table key dangles, a hit returns the requested content, a miss means no reachable equal string; allocator stream with intern operations judged by a content monitor; generated string-producing expression pairs compared with ==, as map keys and via has/index under collection schedules",
+        note="Trusted: as C05; the single entry point (every string allocation goes through manage_str) is an assumption of the model",
+        technique="Lean 4 invariant proof over histories + allocator correspondence stream + schedule differential on string programs"),
+    "C16": dict(
+        text="Lean theorems: signature check soundness for all arities and argument lists; by decide +kernel over the table of all natives regenerated from laythe_lib, every body unwrap site is justified by the declared signature, receiver convention or a dominating test, except an explicit list of known-bad rows each proved to really fail; committed lists of callback-result unwraps and stack-less callback natives; frame limit invariant with the exact bypass witness; non-callable dispatch table; real signature checker compared with the model, native x argument-kind matrix through real programs in isolated workers (debug and release), recursion shapes, error-in-handler shapes",
+        note="Trusted: Lean kernel + standard axioms, translate_natives.py (text scan of native bodies), harness workers; host panics and memory faults are runtime behaviour: the model predicts where they cannot happen, the streams search for the rest; many genuine crashes are known findings",
+        technique="Lean 4 decide-over-generated-table proofs + signature-check soundness + native matrix and recursion streams"),
+    "C17": dict(
+        text="Lean theorems on the import state machine: for every acyclic module graph and every order/multiplicity/form of imports each body starts at most once and has completed before its importer continues, export tables and import objects are exactly the export declarations, non-exported names and missing modules give the import error, the loader never reaches todo!/unwrap (repaired walk: all path lengths); generated multi-file programs judged by a run-once Spec and the exact model",
+        note="Trusted: Lean kernel + standard axioms, hand-written import model (tied by the multi-file stream), harness; termination of every run (C17_full) not proved",
+        technique="Lean 4 invariant proofs over the import machine + multi-file program stream"),
+    "C19": dict(
+        text="Lean theorems on the REPL compile loop: symbols persist to the same slot across entries, a failing compile changes nothing, pinned cache numbering faults exactly on the D13 signature (witness + general theorem) and never outside it, persistent numbering keeps slots in range; generated sessions run through Vm::repl vs the concatenated module, plus a compile-log tie of module slots and cache sites",
+        note="Trusted: Lean kernel + standard axioms, hand-written REPL model, vh_repl harness; D13 is a known finding (C19_full false on the pinned model)",
+        technique="Lean 4 invariant proofs over REPL sessions + session/concatenation differential stream"),
+    "C20": dict(
+        text="Lean theorems (same allocator model): after every collection bytes_allocated = sum of owned sizes, nursery empty, next_gc = 2x; after a full collection in any reachable state the allocator owns exactly the reachable objects and the intern table is exactly the reachable strings; only garbage is reclaimed; witness for the repaired nursery accounting defect; allocator stream judged by an accounting monitor, layout-checking global allocator (size/alignment of every release), stats after forced full collections of real programs",
+        note="Trusted: as C05 plus the checking GlobalAlloc wrapper of the harness; bounded-heap corollary (C20_bounded_heap) not proved",
+        technique="Lean 4 accounting proofs on the allocator model + allocator correspondence stream + layout-checking allocator"),
 }
 
 REASON_PENDING = "check under construction in this round; will be claimed when its theorem module and tie exist (see DESIGN.md §9)"
